@@ -76,4 +76,34 @@ def filingsSkip (v : Ver) (buf : Bytes) : List Bytes → List (Nat × Bytes) × 
     let rest := filingsSkip v r.1 cs
     (r.2.toList ++ rest.1, rest.2)
 
+/-! ## channel settings that must not influence the routing -/
+
+/-- the driver / channel settings a session is created with that the read loop could conceivably
+consult: `Channel.PromptSearchDepth`, `Channel.ReadDelay`, the transport read size, the return
+character, `TimeoutOps`. The model's read loop takes none of them: the routing keys of a complete
+message are computed over the WHOLE message. -/
+structure ChannelCfg where
+  promptSearchDepth : Nat
+  readDelay : Nat
+  readSize : Nat
+  returnChar : Bytes
+  timeoutOps : Nat
+  deriving Repr
+
+/-- one read-loop iteration of a session created with settings `cfg` -/
+def bufStepWith (_cfg : ChannelCfg) (v : Ver) (buf chunk : Bytes) : Bytes × Option (Nat × Bytes) :=
+  bufStep v buf chunk
+
+/-- the variant that looks for the message-id only in the first `depth` bytes of a complete message
+(negative witness for `routing_independent_of_search_depth`) -/
+def bufStepHead (depth : Nat) (v : Ver) (buf chunk : Bytes) : Bytes × Option (Nat × Bytes) :=
+  let b := buf ++ chunk
+  if delimMatch v b then
+    if containsRpcClose b then (afterFirstDelim v b, none)
+    else
+      match firstId (b.take depth) with
+      | some n => if n != 0 then ([], some (n, b)) else ([], none)
+      | none => ([], none)
+  else (b, none)
+
 end Scrapli.Netconf.Store
